@@ -14,7 +14,7 @@ RULE = ("histories over one queue with normal (plain and topic-filtered), delaye
         "timestamp) and rescheduled (requeue with a restarted timestamp) messages, retrieval through the dead category, "
         "rejects and finishes; distinct by the printed Coq op list; non-trivial = a message with a time-to-live is polled "
         "(delivered or dead-lettered)")
-TRUSTED = ["in-memory broker only; Redis and RabbitMQ clients are not covered by this revision of the check"]
+TRUSTED = ["brokers: in-memory (concurrent histories, cancellation), Redis client over harness/fakeredis.py = coq/RedisSrv.v (sequential histories of one client), RabbitMQ client over harness/fakeamqp.py = coq/AmqpSrv.v (sequential histories, fixed callback schedule); RedisSrv.v and AmqpSrv.v are descriptions of the servers written from their documentation, not compared with real servers (none available)"]
 ASSUMPTIONS = ["the clock is non-decreasing", "clients are well-behaved (fresh ids, terminal actions on held messages)"]
 WHICH = {"C12"}
 TTLS = [1000, 5000, 20_000, S, 10 * S]
